@@ -1,5 +1,217 @@
-"""E2 decision-table harnesses — filled in incrementally."""
+"""E2 decision-table harness (DT mode).
+
+A function whose behaviour is a decision over the outcomes of a handful of predicates is interpreted on abstract
+values; calls that consult data (hash look-ups, set membership, user predicates, k-mer comparisons …) are *oracles* with
+finite result domains, identified by callee and by the role (provenance tags) of their arguments — never by position
+in the source.  Oracles are resolved lazily and the space of oracle outcomes is enumerated exhaustively (trace
+partitioning): every run is deterministic, every branch decided.  Each leaf (assignment of the consulted oracles,
+observable outcome) is compared with the specification function written from the property statement; if the
+specification needs a predicate the code never consulted, all completions are examined — a disagreement on any
+completion is a definite violating row.
+"""
+from . import bv
+from .bv import Int, mkbool
+from .absint import (Adt, Arr, Cell, Closure, Diverge, FnItem, Harness, Interp, Opaque, Ref, Tup, Undecided,
+                     Unsupported, VecV, UNINIT, tags_of, with_tags)
+from .models import some, none
+
+DIR = "Dir"
+LEFT, RIGHT = 0, 1
+BOTTOM = ("⊥",)
+
+
+def dir_v(d):
+    return Adt(DIR, d, [])
+
+
+def dir_name(d):
+    return "Left" if d == LEFT else "Right"
+
+
+def dir_of(v):
+    if isinstance(v, Ref):
+        return None
+    if isinstance(v, Adt) and v.name == DIR and v.variant is not None:
+        return v.variant
+    return None
+
+
+def flip(d):
+    return 1 - d
+
+
+def xor_dir(d, b):
+    return flip(d) if b else d
+
+
+class NeedValue(Exception):
+    def __init__(self, name):
+        self.name = name
+
+
+class Oracles(Harness):
+    """lazy oracle store with a replay script"""
+
+    def __init__(self, script=()):
+        self.script = list(script)
+        self.choices = []     # (name, domain, value) in the order first asked
+        self.memo = {}
+        self.obs = {}         # observations (named facts recorded by oracle handlers)
+        self.events = []
+
+    def choose(self, name, domain):
+        if name in self.memo:
+            return self.memo[name]
+        i = len(self.choices)
+        v = self.script[i] if i < len(self.script) else domain[0]
+        self.choices.append((name, tuple(domain), v))
+        self.memo[name] = v
+        return v
+
+    def fixed(self, name, value):
+        """an input fixed by the harness (not an oracle)"""
+        self.memo[name] = value
+
+    def observe(self, k, v):
+        self.obs.setdefault(k, []).append(v)
+
+    # default: ignore prints
+    def on_call(self, it, fn, args, dest_ty, term, caller):
+        return NotImplemented
+
+
+def explore(make_harness, run, max_runs=20000):
+    """DFS over oracle outcomes.  make_harness(script) -> Oracles ; run(h) -> outcome.
+    returns list of (assignment dict, outcome, harness)"""
+    leaves = []
+    stack = [[]]
+    n = 0
+    while stack:
+        script = stack.pop()
+        h = make_harness(script)
+        try:
+            out = run(h)
+        except Diverge as e:
+            out = ("diverge", str(e))
+        except Undecided as e:
+            out = ("inconclusive", "undecided: %s" % e)
+        except Unsupported as e:
+            out = ("inconclusive", "unsupported: %s" % e)
+        except RecursionError:
+            out = ("inconclusive", "recursion")
+        assignment = dict(h.memo)
+        leaves.append((assignment, out, h))
+        for i in range(len(script), len(h.choices)):
+            name, dom, val = h.choices[i]
+            prefix = [c[2] for c in h.choices[:i]]
+            for alt in dom[1:]:
+                stack.append(prefix + [alt])
+        n += 1
+        if n > max_runs:
+            raise Unsupported("decision table exceeds %d rows" % max_runs)
+    return leaves
+
+
+def spec_outcomes(spec, assignment, domains):
+    """all outcomes of spec over the completions of the oracles it reads but the code did not consult.
+    returns list of (completion dict, outcome)"""
+    res = []
+    stack = [dict()]
+    while stack:
+        extra = stack.pop()
+
+        def g(name):
+            if name in assignment:
+                return assignment[name]
+            if name in extra:
+                return extra[name]
+            raise NeedValue(name)
+        try:
+            res.append((extra, spec(g)))
+        except NeedValue as e:
+            if e.name not in domains:
+                raise Unsupported("specification reads unknown oracle %r" % e.name)
+            for v in domains[e.name]:
+                x = dict(extra)
+                x[e.name] = v
+                stack.append(x)
+        if len(res) > 100000:
+            raise Unsupported("too many completions")
+    return res
+
+
+def fmt_row(assignment, order=None):
+    keys = order or sorted(assignment)
+    return {k: (dir_name(assignment[k]) if k.endswith("dir") and assignment[k] in (0, 1) and not isinstance(assignment[k], bool) else assignment[k])
+            for k in keys if k in assignment}
+
+
+def check_table(rep, rule, key, leaves, spec, domains, describe, site=None, show=None):
+    """compare every leaf with the specification"""
+    n_rows = 0
+    bad = 0
+    inconc = 0
+    for assignment, out, h in leaves:
+        rep.evaluations += 1
+        n_rows += 1
+        if isinstance(out, tuple) and out and out[0] == "inconclusive":
+            inconc += 1
+            if inconc <= 2:
+                rep.inconclusive(rule, "%s/row%d" % (key, n_rows), "%s: %s (row %s)" % (describe, out[1], fmt_row(assignment)))
+            continue
+        try:
+            specs = spec_outcomes(spec, assignment, domains)
+        except Unsupported as e:
+            rep.inconclusive(rule, "%s/row%d" % (key, n_rows), "%s: %s" % (describe, e))
+            inconc += 1
+            continue
+        for extra, want in specs:
+            if want == BOTTOM:
+                continue
+            ok = (out == want)
+            if not ok:
+                bad += 1
+                row = dict(assignment)
+                row.update(extra)
+                if bad <= 3:
+                    rep.violated(rule, "%s/%s" % (key, "row-" + "-".join("%s=%s" % (k, fmt_row(row)[k]) for k in sorted(row))[:180]),
+                                 "%s: for %s the code yields %s, the property requires %s%s" % (
+                                     describe, fmt_row(row), show(out) if show else (out,), show(want) if show else (want,),
+                                     " (the code never consults %s)" % sorted(extra) if extra else ""),
+                                 witness={"kind": "row", "row": fmt_row(row), "got": repr(out), "spec": repr(want),
+                                          "unconsulted": sorted(extra)}, site=site)
+                break
+    if bad == 0 and inconc == 0:
+        rep.holds(rule, key, "%s: all %d reachable rows agree with the specification" % (describe, n_rows),
+                  sample={"table": describe, "rows": n_rows,
+                          "example_row": fmt_row(leaves[0][0]) if leaves else None,
+                          "example_outcome": repr(leaves[0][1]) if leaves else None})
+    return n_rows, bad, inconc
+
+
+# --------------------------------------------------------------------------- shared oracle helpers
+
+def is_print_call(fn):
+    p = fn.get("path", "")
+    return p.startswith(("core::fmt", "std::fmt", "std::io::_print", "std::io::stdio::_print", "log::", "std::io::_eprint"))
+
+
+def find_fn(F, pred, what):
+    c = [b for b in F.fns.values() if pred(b)]
+    if not c:
+        raise Unsupported("anchor-missing: %s" % what)
+    return c
+
+
+def builds_variant(body, adt_suffix, vname):
+    for bb in body["blocks"]:
+        for st in bb["s"]:
+            if st["k"] == "assign" and st["rv"]["k"] == "agg" and st["rv"].get("ak") == "adt" and \
+                    st["rv"]["adt"].endswith(adt_suffix) and st["rv"]["vname"] == vname:
+                return True
+    return False
 
 
 def slice_view_tables(F, rep):
-    pass
+    from . import dt_tables
+    dt_tables.slice_view_tables(F, rep)
